@@ -126,7 +126,7 @@ func c11Defs(thorough bool) []c11Def {
 	for _, v := range c11Predefined {
 		d = append(d, c11Def{v.Name, *v.GUID, uint32(v.Attributes)})
 	}
-	guids := []util.EFIGUID{unwire(ownerA), unwire(ownerB), {Data1: 0x0000000a, Data2: 0x000b, Data3: 0x0c00, Data4: [8]byte{0, 0xd, 0, 0, 0, 0, 0, 0xe}}}
+	guids := []util.EFIGUID{unwire(ownerA), unwire(ownerB), {Data1: 0x0000000a, Data2: 0x000b, Data3: 0x0c00, Data4: [8]byte{0, 0xd, 0, 0, 0, 0, 0, 0xe}}, {}} // (the last: all zero)
 	names := []string{"A", "Boot0001", strings.Repeat("N", 64)}
 	for ni, n := range names {
 		for gi, g := range guids {
@@ -148,13 +148,44 @@ func c11Defs(thorough bool) []c11Def {
 	return d
 }
 
+var c11Early, c11Existing bool
+
 func c11Write(c *hx.Ctx, api, dir string, d c11Def, vname string, m efivar.Marshallable, enc []byte) {
 	if !c.Next() {
 		return
 	}
 	rec := recfs.New()
+	// c11Early: the object API's wrapper exists before the caller configures the directory (the
+	// directory is what attributes.Efivars holds when the operation runs, as for the legacy API)
+	var early *fswrapper.FSWrapper
+	if c11Early {
+		early = fswrapper.NewMemoryWrapper()
+	}
+	newWrapper := func() *fswrapper.FSWrapper {
+		if early != nil {
+			return early
+		}
+		return fswrapper.NewMemoryWrapper()
+	}
 	attributes.Efivars = dir
 	defer func() { attributes.Efivars = "/sys/firmware/efi/efivars" }()
+	if c11Existing {
+		// the variable exists already, stored with another attribute mask and a longer value: the write
+		// is made with the caller's mask and value all the same
+		eg := d.guid
+		if api == "attributes.WriteEfivars" || api == "efi.WriteEFIVariable" {
+			eg = attributes.EFI_GLOBAL_VARIABLE
+			if d.name == "db" || d.name == "dbx" || d.name == "dbt" || d.name == "dbr" {
+				eg = attributes.EFI_IMAGE_SECURITY_DATABASE_GUID
+			}
+		}
+		p := path.Join(dir, d.name+"-"+refFormat(eg))
+		rec.Inner.MkdirAll(dir, 0o755)
+		if fh, err := rec.Inner.Create(p); err == nil {
+			fh.Write(append(binary.LittleEndian.AppendUint32(nil, (d.attrs^0x21)&^0x40), fill(len(enc)+9, 0x6e)...))
+			fh.Close()
+		}
+	}
 	g := d.guid
 	v := efivar.Efivar{Name: d.name, GUID: &g, Attributes: attributes.Attributes(d.attrs)}
 	wantAttrs := d.attrs
@@ -165,17 +196,17 @@ func c11Write(c *hx.Ctx, api, dir string, d c11Def, vname string, m efivar.Marsh
 	p := hx.Try(func() {
 		switch api {
 		case "EFIFS.WriteVar":
-			fw := fswrapper.NewMemoryWrapper()
+			fw := newWrapper()
 			fw.SetFS(rec)
 			err = (&efivarfs.EFIFS{FSWrapper: fw}).WriteVar(v, m)
 		case "Efivarfs.WriteSignedUpdate":
-			fw := fswrapper.NewMemoryWrapper()
+			fw := newWrapper()
 			fw.SetFS(rec)
 			e := efivarfs.Open(&efivarfs.EFIFS{FSWrapper: fw})
 			err = e.WriteSignedUpdate(v, m, keys.K(1), keys.C(1))
 			signedPrefix = true
 		case "FSWrapper.WriteEfivarsWithGuid":
-			fw := fswrapper.NewMemoryWrapper()
+			fw := newWrapper()
 			fw.SetFS(rec)
 			err = fw.WriteEfivarsWithGuid(d.name, attributes.Attributes(d.attrs), enc, d.guid)
 		case "attributes.WriteEfivarsWithGuid":
@@ -447,6 +478,14 @@ func c11Run(c *hx.Ctx, tier, unit string) {
 						c.Sample(map[string]any{"api": api, "dir": dir, "name": d.name, "guid": refFormat(d.guid), "attrs": d.attrs, "value": v.name})
 					}
 					c11Write(c, api, dir, d, v.name, v.m, v.enc)
+					if di%3 == 0 || di < len(c11Predefined) {
+						c11Existing = true
+						c11Write(c, api, dir, d, v.name+" (variable exists with another mask and a longer value)", v.m, v.enc)
+						c11Existing = false
+						c11Early = true
+						c11Write(c, api, dir, d, v.name+" (wrapper object created before the directory was configured)", v.m, v.enc)
+						c11Early = false
+					}
 				}
 				// values that begin with the very attribute mask the write puts in front of them
 				if api != "Efivarfs.WriteSignedUpdate" && !(api == "efi.WriteEFIVariable" && di >= len(c11Predefined) && d.attrs != 0) {
